@@ -16,7 +16,8 @@ namespace vsim {
 // ---------------------------------------------------------------------------
 // plan
 // ---------------------------------------------------------------------------
-enum StepKind : uint8_t { ST_SETE = 0, ST_SETT, ST_SETP, ST_SETVEC, ST_OP, ST_NEG, ST_MARK };
+enum StepKind : uint8_t { ST_SETE = 0, ST_SETT, ST_SETP, ST_SETVEC, ST_OP, ST_NEG, ST_MARK,
+                          ST_USERW /* the user writes an element buffer directly, in the middle of a history */ };
 
 struct Step {
   StepKind kind;
@@ -96,6 +97,8 @@ void gen_elem(const GroupVT* vt, Rng& r, const ElemSpec& sp, double* c);
 // rotation norm at the edge of the acceptance threshold (takes the renormalisation branch of compose)
 void spice_elem_spec(const GroupVT* vt, Rng& r, ElemSpec& sp);
 void gen_unit_axis(Rng& r, double* u3);
+// a neighbour of `in`: every rotation block turned by dtheta about a random axis, translation-like parts moved by up to dlin
+void perturb_elem(const GroupVT* vt, Rng& r, const double* in, double dtheta, double dlin, double* out);
 // tangent: angular blocks get angle*axis (axis random or given), linear parts log-uniform
 struct TanSpec {
   double angle;        // <0: log-uniform in [1e-12, pi]
